@@ -703,6 +703,34 @@ func stress(rec *vr.Rec, seed int64) {
 		}, nil)
 		var wg sync.WaitGroup
 		per := vr.Scale(250, 2000)
+		// bounded progress as a logical verdict instead of a process hang: when no call has returned for 5 s while
+		// nothing is in flight inside the wrapped function, the waiters can only be waiting for slots nobody holds
+		base, stopAll := context.WithCancel(context.Background())
+		var returned atomic.Int64
+		monDone := make(chan struct{})
+		go func() {
+			defer close(monDone)
+			last, since := int64(-1), time.Now()
+			for {
+				select {
+				case <-base.Done():
+					return
+				case <-time.After(50 * time.Millisecond):
+				}
+				mu.Lock()
+				inf := inflight
+				mu.Unlock()
+				if n := returned.Load(); n != last || inf != 0 {
+					last, since = n, time.Now()
+					continue
+				}
+				if time.Since(since) > 5*time.Second {
+					rec.Violation("C16/stress/slot-leaked-waiters-stalled", fmt.Sprintf("no call returned for 5 s with nothing in flight and callers still waiting (returned %d of %d); endpoint queues: %v", last, 64*per, lim.VerifQueues()), map[string]int{"total": total, "ep": ep, "paths": npaths})
+					stopAll()
+					return
+				}
+			}
+		}()
 		for g := 0; g < 64; g++ {
 			wg.Add(1)
 			go func(g int) {
@@ -711,7 +739,10 @@ func stress(rec *vr.Rec, seed int64) {
 				for i := 0; i < per; i++ {
 					id := g*per + i
 					k := rk{id, rr.Intn(npaths)}
-					ctx, cancel := context.WithCancel(context.WithValue(context.Background(), reqKey{}, k))
+					if base.Err() != nil {
+						return
+					}
+					ctx, cancel := context.WithCancel(context.WithValue(base, reqKey{}, k))
 					switch rr.Intn(4) {
 					case 0:
 						cancel() // cancelled before arrival
@@ -725,6 +756,7 @@ func stress(rec *vr.Rec, seed int64) {
 					req.SetCode(codes.GET)
 					req.MustSetPath(fmt.Sprintf("/s%d", k.path))
 					_, err := lim.Do(req)
+					returned.Add(1)
 					if err != nil {
 						if _, did := ran.Load(id); did {
 							errRan.Add(1)
@@ -737,6 +769,12 @@ func stress(rec *vr.Rec, seed int64) {
 			}(g)
 		}
 		wg.Wait()
+		stalled := base.Err() != nil
+		stopAll()
+		<-monDone
+		if stalled {
+			return
+		}
 		// idle again
 		if q := lim.VerifQueues(); len(q) != 0 {
 			rec.Violation("C16/stress/limiter-not-idle", fmt.Sprintf("endpoint queues after all calls returned: %v", q), map[string]int{"total": total, "ep": ep})
